@@ -65,6 +65,19 @@ func c01Round2(c *Ctx) {
 		c.Check(f.OK, "R01k", f.Key, f.Pos, "no element store through the earlier header", f.Detail)
 	}
 	c.runControl("R01k stale slice header control (ctl/stale.Add)", "stale.Doc).Add:", staleSliceHeaders)
+	c.Rule("R01m", "replacing the signature stream of an MSI frees exactly the old stream's chain, in the table it lives in, and removes the name it adds (shared with C03 R03c and C18 R18e)", 6)
+	c03RuleDelete = "R01m"
+	c03Delete(c)
+	c03RuleDelete = "R03c"
+	c18RuleCutoff = "R01m"
+	c18Cutoff(c, p.pkgFuncs("lib/comdoc"))
+	c18RuleCutoff = "R18e"
+	c.Rule("R01n", "the span removed for an old Debian signature member is even: computed from the member header and rounded up, or made even where it is measured (shared with C03 R03h)", 1)
+	if fn := p.Func("lib/signdeb.Sign"); fn != nil {
+		for _, f := range arSpanPadded(p, fn) {
+			c.Check(f.OK, "R01n", f.Key, f.Pos, f.Detail, f.Detail)
+		}
+	}
 	c.Rule("R01l", "signdeb.Sign leaves every _gpg* member out of what the new signature lists (shared with C08 R08b)", 1)
 	for _, f := range debSkipsSignatureMembers(p) {
 		c.Check(f.OK, "R01l", f.Key, f.Pos, "", f.Detail)
